@@ -99,6 +99,10 @@ def silence_points():
     pts = {}
     pts['acceptor_no_request'] = (True, [])
     pts['acceptor_partial_request'] = (True, [('peer', CORPUS['acc_reject'][1][0][1][:37], 0)])
+    _rq = CORPUS['acc_reject'][1][0][1]
+    # the first PDU dribbles in: header complete after the first piece, two more pieces, then silence
+    pts['acceptor_request_in_three_pieces'] = (True, [('peer', _rq[:30], 0), ('peer', _rq[30:60], 0), ('peer', _rq[60:90], 0)])
+    pts['acceptor_header_only'] = (True, [('peer', _rq[:6], 0)])
     acc, t = CORPUS['acc_reject']
     pts['after_reject_sent'] = (acc, t[:-1])
     acc, t = CORPUS['acc_echo_release']
